@@ -314,7 +314,10 @@ fn section_has_rule_or_table(text: &str, line: usize) -> bool {
         if heading_level(l) > 0 {
             break;
         }
-        if l.starts_with("----") || l.starts_with('|') {
+        // also nested in quotes and list items of the section
+        let t = l.trim_start().trim_start_matches('>').trim_start();
+        let t = t.trim_start_matches('>').trim_start();
+        if t.starts_with("----") || t.starts_with('|') {
             return true;
         }
     }
